@@ -399,8 +399,13 @@ class CursorAwareWindow(BaseWindow, ContextManager["CursorAwareWindow"]):
         while True:
             self.in_get_cursor_diff = True
             self.another_sigwinch = False
-            cursor_dy += self._get_cursor_vertical_diff_once()
-            self.in_get_cursor_diff = False
+            try:
+                cursor_dy += self._get_cursor_vertical_diff_once()
+            finally:
+                # also when the query raises (e.g. bytes preceding the response
+                # and no extra_bytes_callback): otherwise every later call would
+                # take itself for a nested one and return 0 forever
+                self.in_get_cursor_diff = False
             if not self.another_sigwinch:
                 return cursor_dy
 
